@@ -150,17 +150,39 @@ type vTPacketConn struct {
 	closed  bool
 	closedN int
 	wake    chan struct{}
+	queue   []vPkt // first datagrams of peers the node has no association with
+}
+
+type vPkt struct {
+	from net.Addr
+	d    []byte
 }
 
 func (p *vTPacketConn) ReadFrom(b []byte) (int, net.Addr, error) {
 	for {
 		p.mu.Lock()
-		cl := p.closed
-		p.mu.Unlock()
-		if cl {
+		if p.closed {
+			p.mu.Unlock()
 			return 0, nil, net.ErrClosed
 		}
+		if len(p.queue) > 0 {
+			k := p.queue[0]
+			p.queue = p.queue[1:]
+			p.mu.Unlock()
+			return copy(b, k.d), k.from, nil
+		}
+		p.mu.Unlock()
 		<-p.wake
+	}
+}
+
+func (p *vTPacketConn) deliver(from net.Addr, d []byte) {
+	p.mu.Lock()
+	p.queue = append(p.queue, vPkt{from, d})
+	p.mu.Unlock()
+	select {
+	case p.wake <- struct{}{}:
+	default:
 	}
 }
 func (p *vTPacketConn) WriteTo(b []byte, a net.Addr) (int, error) { return len(b), nil }
@@ -176,6 +198,9 @@ func (p *vTPacketConn) Close() error {
 	return nil
 }
 func (p *vTPacketConn) LocalAddr() net.Addr {
+	if !vInEngine() {
+		return &net.UDPAddr{IP: net.IPv4(127, 0, 0, 1).To4(), Port: 0} // NewPFCPConn dials from here
+	}
 	return &net.UDPAddr{IP: net.IPv4(10, 0, 0, 1).To4(), Port: 8805}
 }
 func (p *vTPacketConn) SetDeadline(t time.Time) error      { return nil }
@@ -185,6 +210,7 @@ func (p *vTPacketConn) SetWriteDeadline(t time.Time) error { return nil }
 // vTDatapath counts, per session, how often its rules were deleted.
 type vTDatapath struct {
 	mu      sync.Mutex
+	down    bool // IsConnected answers false
 	creates map[uint64]int
 	dels    map[uint64]int
 	exits   int
@@ -200,7 +226,16 @@ func (d *vTDatapath) Exit() {
 func (d *vTDatapath) SetUpfInfo(u *upf, conf *Conf)     {}
 func (d *vTDatapath) AddSliceInfo(s *SliceInfo) error   { return nil }
 func (d *vTDatapath) SendEndMarkers(l *[][]byte) error  { return nil }
-func (d *vTDatapath) IsConnected(accessIP *net.IP) bool { return true }
+func (d *vTDatapath) IsConnected(accessIP *net.IP) bool {
+	d.mu.Lock()
+	defer d.mu.Unlock()
+	return !d.down
+}
+func (d *vTDatapath) setDown(v bool) {
+	d.mu.Lock()
+	d.down = v
+	d.mu.Unlock()
+}
 func (d *vTDatapath) SendMsgToUPF(method upfMsgType, all PacketForwardingRules, updated PacketForwardingRules) uint8 {
 	if d.jitter {
 		time.Sleep(time.Duration(rand.Intn(300)) * time.Microsecond)
@@ -401,7 +436,10 @@ func vMarshal(m message.Message) []byte {
 
 // fire performs one environment action on association 0.
 func (w *vC10World) fire(t int) {
-	a := w.assocs[0]
+	var a *vC10Assoc
+	if len(w.assocs) > 0 {
+		a = w.assocs[0]
+	}
 	switch t {
 	case vC10Release:
 		a.conn.deliver(vMarshal(message.NewAssociationReleaseRequest(21, ie.NewNodeID("", "", "cp.test"))))
@@ -626,4 +664,189 @@ func vC10Native(n, t1, t2 int) string {
 		}
 	}
 	return ""
+}
+
+// ---- new peers: handleNewPeers / NewPFCPConn ---------------------------------
+
+const (
+	vC10FirstSetupRefused = iota // Association Setup Request while the datapath is down
+	vC10FirstSetup               // Association Setup Request, accepted
+	vC10FirstRelease             // Association Release Request as the very first message
+	vC10FirstHeartbeat           // Heartbeat Request
+	vC10NFirst
+)
+
+var vC10FirstNames = []string{"first=setup-refused", "first=setup", "first=release", "first=heartbeat"}
+
+// vC10Peer: a control-plane peer. Under the engine its datagrams are handed to
+// the fakes; natively it is a real UDP socket on loopback (NewPFCPConn dials a
+// real connected socket towards it).
+type vC10Peer struct {
+	addr   net.Addr
+	udp    *net.UDPConn // native
+	dialed []*vTConn    // engine: every socket NewPFCPConn dialled towards this peer
+}
+
+func vC10FirstDatagram(kind int) []byte {
+	switch kind {
+	case vC10FirstSetupRefused, vC10FirstSetup:
+		return vMarshal(message.NewAssociationSetupRequest(41, ie.NewNodeID("", "", "cp.test"), ie.NewRecoveryTimeStamp(vTS)))
+	case vC10FirstRelease:
+		return vMarshal(message.NewAssociationReleaseRequest(42, ie.NewNodeID("", "", "cp.test")))
+	}
+	return vMarshal(message.NewHeartbeatRequest(43, ie.NewRecoveryTimeStamp(vTS), nil))
+}
+
+// vC10NewPeerWorld: a node without associations and one peer.
+func vC10NewPeerWorld() (*vC10World, *vC10Peer) {
+	w := vC10Setup(0, false, !vInEngine())
+	p := &vC10Peer{}
+	if vInEngine() {
+		p.addr = &net.UDPAddr{IP: net.IPv4(10, 0, 0, 2).To4(), Port: 9000}
+		vOverride("github.com/libp2p/go-reuseport.Dial", func(network, laddr, raddr string) (net.Conn, error) {
+			c := vNewTConn(9000)
+			p.dialed = append(p.dialed, c)
+			return c, nil
+		})
+		vOverride("math/rand.NewSource", func(seed int64) rand.Source { return &vRandSource{counter: true} })
+	} else {
+		u, err := net.ListenUDP("udp", &net.UDPAddr{IP: net.IPv4(127, 0, 0, 1), Port: 0})
+		if err != nil {
+			panic("harness: cannot open a loopback UDP socket: " + err.Error())
+		}
+		p.udp, p.addr = u, u.LocalAddr()
+	}
+	return w, p
+}
+
+// registered returns the association the node has for the peer, if any.
+func (w *vC10World) registered(p *vC10Peer) *PFCPConn {
+	v, ok := w.node.pConns.Load(p.addr.String())
+	if !ok {
+		return nil
+	}
+	return v.(*PFCPConn)
+}
+
+// send delivers a datagram of the peer the way the kernel would: to the
+// association's connected socket if the node has one for the peer, to the
+// listening socket otherwise.
+func (w *vC10World) send(p *vC10Peer, d []byte) {
+	pc := w.registered(p)
+	if pc == nil {
+		w.pk.deliver(p.addr, d)
+		return
+	}
+	if vInEngine() {
+		pc.Conn.(*vTConn).deliver(d)
+		return
+	}
+	_, _ = p.udp.WriteToUDP(d, pc.LocalAddr().(*net.UDPAddr))
+}
+
+// accepted reports whether the peer got an Association Setup Response with
+// cause accepted for sequence number seq.
+func (w *vC10World) accepted(p *vC10Peer, seq uint32) bool {
+	var got [][]byte
+	if vInEngine() {
+		for _, c := range p.dialed {
+			_, ws, _ := c.snapshot()
+			got = append(got, ws...)
+		}
+	} else {
+		end := time.Now().Add(700 * time.Millisecond)
+		buf := make([]byte, 2048)
+		for time.Now().Before(end) {
+			_ = p.udp.SetReadDeadline(time.Now().Add(50 * time.Millisecond))
+			n, _, err := p.udp.ReadFromUDP(buf)
+			if err != nil {
+				continue
+			}
+			got = append(got, append([]byte{}, buf[:n]...))
+			if m, err := message.Parse(buf[:n]); err == nil && m.MessageType() == message.MsgTypeAssociationSetupResponse && m.Sequence() == seq {
+				break
+			}
+		}
+	}
+	for _, g := range got {
+		m, err := message.Parse(g)
+		if err != nil {
+			continue
+		}
+		if r, ok := m.(*message.AssociationSetupResponse); ok && m.Sequence() == seq && vCauseOf(r.Cause) == ie.CauseRequestAccepted {
+			return true
+		}
+	}
+	return false
+}
+
+// vC10NewPeerScenario: the first datagram of a new peer creates its association
+// (handleNewPeers -> NewPFCPConn -> HandlePFCPMsg -> Serve); whatever that
+// datagram was, the peer can then associate (afresh) and Stop completes.
+func vC10NewPeerScenario(w *vC10World, p *vC10Peer, kind int, settle func()) string {
+	w.dp.setDown(kind == vC10FirstSetupRefused)
+	w.pk.deliver(p.addr, vC10FirstDatagram(kind))
+	settle()
+	if kind == vC10FirstRelease && w.registered(p) != nil {
+		return "new-peer:an-association-ended-by-its-first-message-is-forgotten"
+	}
+	// the peer (re-)associates: the datapath is up now
+	w.dp.setDown(false)
+	w.send(p, vMarshal(message.NewAssociationSetupRequest(51, ie.NewNodeID("", "", "cp.test"), ie.NewRecoveryTimeStamp(vTS))))
+	settle()
+	if !w.accepted(p, 51) {
+		return "new-peer:the-peer-can-associate-afresh"
+	}
+	if w.registered(p) == nil {
+		return "new-peer:the-associated-peer-is-registered"
+	}
+	w.fire(vC10Stop)
+	settle()
+	if !vInEngine() {
+		vC10Wait(w.nodeDone, 2*time.Second)
+	}
+	if !w.nodeDone() {
+		return "stop:completes"
+	}
+	return ""
+}
+
+// H_C10_newpeer: under the engine, every interleaving within the bound.
+func H_C10_newpeer() {
+	kind := vChoose("first_datagram", vC10NFirst)
+	vTag(vC10FirstNames[kind])
+	vConcreteClock(1000)
+	w, p := vC10NewPeerWorld()
+	vSettle()
+	vPreemptAtChans(vC10Switches)
+	msg := vC10NewPeerScenario(w, p, kind, vSettle)
+	for _, l := range []string{"new-peer:an-association-ended-by-its-first-message-is-forgotten", "new-peer:the-peer-can-associate-afresh",
+		"new-peer:the-associated-peer-is-registered", "stop:completes"} {
+		vAssert(l, msg != l)
+	}
+	vJoin()
+	vCover("newpeer")
+	vCover(vC10FirstNames[kind])
+}
+
+// R_C10_stress_newpeer: native counterpart on real loopback UDP sockets.
+func R_C10_stress_newpeer() {
+	only := os.Getenv("VERIF_STRESS_TAGS")
+	deadline := time.Now().Add(40 * time.Second)
+	for round := 0; round < 300 && time.Now().Before(deadline); round++ {
+		for kind := 0; kind < vC10NFirst; kind++ {
+			if only != "" && only != vC10FirstNames[kind] {
+				continue
+			}
+			w, p := vC10NewPeerWorld()
+			msg := vC10NewPeerScenario(w, p, kind, func() { time.Sleep(time.Duration(2+rand.Intn(4)) * time.Millisecond) })
+			_ = p.udp.Close()
+			if msg != "" {
+				if msg == "stop:completes" {
+					msg = "hang: " + msg
+				}
+				vStressFail(fmt.Sprintf("round %d %s: %s", round, vC10FirstNames[kind], msg))
+			}
+		}
+	}
 }
